@@ -6,7 +6,6 @@ From AV Require Import Base.Bytes Base.Outcome Hash.HashModel Tree.Heap Tree.Ops
 Open Scope string_scope.
 Open Scope list_scope.
 Open Scope N_scope.
-Set Default Timeout 120.
 
 (* ------------------------------------------------------------------ worlds with the same parent links *)
 Definition sp (w1 w2 : world) : Prop := w_next w2 = w_next w1 /\ forall i, parent_link w2 i = parent_link w1 i.
